@@ -12,6 +12,7 @@ MaxInt64 never reaches a signed node.
 import SecsModel.Model.WF
 import SecsModel.Model.Msg
 import SecsModel.Generated.Facts
+import SecsModel.Proofs.FillWF
 namespace Secs.C12
 open Secs
 
@@ -460,5 +461,27 @@ theorem facts_name_patterns :
 /-! ### non-vacuity -/
 example : (mkInt 1 [.sint 8 (-128), .str [120], .uint 64 127]).isSome = true := by decide
 example : mkInt 1 [.sint 0 128] = none ∧ mkUint 8 [.sint 0 (-1)] = none ∧ mkInt 8 [.uint 0 (2 ^ 63)] = none := by decide
+
+
+/-! ### whatever a factory hands out satisfies the representation invariant -/
+
+/-- every factory result is well formed (sizes within the limit, widths valid, integer and binary
+values in range, every variable name valid, no name twice); the list factory given well-formed
+items. The `checkRep` branches that panic with "rep invariant broken" are therefore dead code. -/
+theorem factories_well_formed :
+    (∀ w args t, mkInt w args = some t → t.wfS = true) ∧
+    (∀ w args t, mkUint w args = some t → t.wfS = true) ∧
+    (∀ w args t, mkFloat w args = some t → t.wfS = true) ∧
+    (∀ args t, mkBinary args = some t → t.wfS = true) ∧
+    (∀ args t, mkBoolean args = some t → t.wfS = true) ∧
+    (∀ s t, mkAscii s = some t → t.wfS = true) ∧
+    (∀ n mn mx t, mkAsciiVar n mn mx = some t → t.wfS = true) ∧
+    (∀ args t, itemsWfS args = true → mkList args = some t → t.wfS = true) :=
+  ⟨mkInt_wfS, mkUint_wfS, mkFloat_wfS, mkBinary_wfS, mkBoolean_wfS, mkAscii_wfS, mkAsciiVar_wfS,
+    fun args t hi h => mkList_wfS args t h hi⟩
+
+/-- a fill hands out a well-formed item or refuses -/
+theorem fill_well_formed (t t' : Tmpl) (env : Env) (hw : t.wfS = true) (henv : Env.itemsWfS env = true)
+    (h : t.fill env = some t') : t'.wfS = true := t.fill_wfS t' env hw henv h
 
 end Secs.C12
